@@ -159,6 +159,13 @@ def corpus(tier):
         out.append((a + "+" + b, R(singles[a]) + R(singles[b])))
     out.append(("crlf-get-crlf-get", b"\r\n" + R(g) + b"\r\n" + R(g)))
     out.append(("get-get-get", R(g) * 3))
+    # heads whose size is at the header limit of the "small" configuration (64) with and without leading empty lines
+    for L in (60, 61, 62, 63, 64):
+        head = b"GET /" + b"a" * (L - len(b"GET / HTTP/1.1\r\n\r\n")) + b" HTTP/1.1\r\n\r\n"
+        out.append((f"head{L}", head))
+        out.append((f"crlf+head{L}", b"\r\n" + head))
+        if L in (62, 63):
+            out.append((f"crlf+head{L}+get", b"\r\n" + head + R(g)))
     out.append(("truncated-chunked", R(ch)[:-3]))
     out.append(("truncated-expect", R(ex)[:-2]))
     # malformed variants: a deterministic slice of the single-token mutations
